@@ -16,7 +16,7 @@ SPEC = dict(
     coq_targets=["props/C38.vo"],
     drivers=[
         dict(name="layout", kind="main", pkg="./zzverif/c38",
-             n=dict(quick=1200, thorough=20000), timeout=dict(quick=300, thorough=1500),
+             n=dict(quick=900, thorough=20000), timeout=dict(quick=300, thorough=1500),
              ev=dict(requires=["V.lib.Bytes", "V.models.Gadget"], case_type="Gadget.case",
                      mismatch="Gadget.mismatch", monitor="Gadget.monitor_fail")),
     ],
